@@ -290,6 +290,10 @@ class NamespaceMixin(object):
             ast = declast.check_decl(decl, namespace=self)
 
         name = ast.get_name()  # Local name.
+        if not isinstance(name, str):
+            raise RuntimeError(
+                "typedef does not declare a new name (is the name already "
+                "a type?): '{}' at line {}".format(decl, kwargs.get("__line__", "?")))
         node = TypedefNode(name, parent=self, ast=ast)
         node.typemap = self.create_typedef_typemap(node, fields=kwargs.get("fields", None))
         self.typedefs.append(node)
